@@ -9,12 +9,14 @@
 //
 // Case lines:
 //
-//	AS id suite attack cc=<0|1>,cr=<0|1>          malicious server against a real verifying GM client
-//	AC id suite attack auth                       malicious client against a real GM server
-//	AM id suite auth cc dir msg off field mask    man in the middle between a real client and a real server
-//	                                              (control: dir=none msg=- off=0 field=- mask=00)
+//		AS id suite attack cc=<0|1>,cr=<0|1>          malicious server against a real verifying GM client
+//		AC id suite attack auth                       malicious client against a real GM server
+//		AM id suite auth cc dir msg off field mask    man in the middle between a real client and a real server
+//		                                              (control: dir=none msg=- off=0 field=- mask=00)
 //
-// Observation lines: id ok|err|PANIC|HANG (AS, AC) ; id <client> <server> <same> (AM)
+//	  AN id suite src pattern servername            server-name matching, certificates issued by the test CA (an.go)
+//
+// Observation lines: id ok|err|PANIC|HANG (AS, AC, AN) ; id <client> <server> <same> (AM)
 package main
 
 import (
@@ -75,6 +77,13 @@ func runCase(line string) (string, string) {
 		}
 		auth, _ := strconv.Atoi(f[4])
 		r, d := runAC(suite, f[3], auth)
+		return id + " " + r, d
+	case "AN":
+		suite, ok := parseSuite(f[2])
+		if len(f) != 6 || !ok {
+			break
+		}
+		r, d := runAN(suite, f[3], f[4], f[5])
 		return id + " " + r, d
 	case "AM":
 		suite, auth, cc, t, ok := parseAM(f)
